@@ -103,8 +103,14 @@ P['C05'] = dict(
     level_note='Bounds: 3 operations, 5 (quick) / 6 (thorough) steps. "Runs out of work" is observed on the stub world: empty handler queue, no pending socket/resolver operation, no armed timer.',
     assumptions=_pub_assume[:2],
     jobs=[dict(name='completion_once_and_drain', tu='harness/w_cancel.cpp', entry='h_cancel', engine='B', clock=True, defs={'VK_OPS': 3}, defs_quick={'VK_STEPS': 5}, defs_thorough={'VK_STEPS': 6},
-               reach=['answered', 'cancel', 'disconnect', 'destroyed', 'terminal-signal', 'drained', 'restarted', 'invalid-request', 'completion-left-queued'], samples=10),
+               reach=['answered', 'cancel', 'disconnect', 'destroyed', 'terminal-signal', 'drained', 'restarted', 'invalid-request', 'completion-left-queued', 'disconnect-write-unrecoverable'], samples=10),
           dict(name='stop_during_handshake', tu='harness/w_cancel.cpp', entry='h_cancel_handshake', engine='B', clock=True, defs={'VK_OPS': 3},
+               reach=['cancel', 'disconnect', 'destroyed', 'drained', 'struck-mid-handshake', 'struck-after-connack'], samples=10),
+          dict(name='completion_once_and_drain_layered', tu='harness/w_cancel.cpp', entry='h_cancel', engine='B', clock=True, defs={'VK_OPS': 2, 'VK_LAYERED': 1, 'VK_MALFORMED': 1}, defs_quick={'VK_STEPS': 4}, defs_thorough={'VK_STEPS': 5},
+               reach=['answered', 'cancel', 'disconnect', 'destroyed', 'drained', 'restarted', 'shutdown-pending', 'disconnect-write-unrecoverable', 'malformed-packet', 'internal-cancel'], samples=10),
+          dict(name='internal_cancel', tu='harness/w_cancel.cpp', entry='h_cancel', engine='B', clock=True, defs={'VK_OPS': 2, 'VK_MALFORMED': 1}, defs_quick={'VK_STEPS': 4}, defs_thorough={'VK_STEPS': 5},
+               reach=['drained', 'malformed-packet', 'internal-cancel'], samples=10),
+          dict(name='stop_during_handshake_layered', tu='harness/w_cancel.cpp', entry='h_cancel_handshake', engine='B', clock=True, defs={'VK_OPS': 3, 'VK_LAYERED': 1},
                reach=['cancel', 'disconnect', 'destroyed', 'drained', 'struck-mid-handshake', 'struck-after-connack'], samples=10)])
 
 P['C06'] = dict(
